@@ -41,8 +41,11 @@ FS_RULES = [
     [rc.fs_prefix4(1, '10.9.0.0/16')],
     [rc.fs_prefix4(1, '10.9.0.0/16'), rc.fs_component(3, rc.fs_numeric([(0, '=', 6)]))],
     [rc.fs_prefix4(2, '172.16.0.0/12'), rc.fs_component(5, rc.fs_numeric([(0, '=', 80), (0, '=', 443)]))],
+    # component types with one and with two digits in one rule (as text, '10' sorts before '5')
+    [rc.fs_prefix4(1, '10.9.0.0/16'), rc.fs_component(5, rc.fs_numeric([(0, '=', 80)])), rc.fs_component(10, rc.fs_numeric([(0, '=', 100)]))],
 ]
-FS_JSON = [{'1': '10.9.0.0/16'}, {'1': '10.9.0.0/16', '3': '=6'}, {'2': '172.16.0.0/12', '5': '=80|=443'}]
+FS_JSON = [{'1': '10.9.0.0/16'}, {'1': '10.9.0.0/16', '3': '=6'}, {'2': '172.16.0.0/12', '5': '=80|=443'},
+           {'1': '10.9.0.0/16', '5': '=80', '10': '=100'}]
 VPN = [('100:1', '10.5.0.0/16'), ('100:2', '10.5.0.0/16'), ('1.1.1.1:7', '10.6.1.0/24')]
 
 
@@ -452,14 +455,14 @@ op_strategy = st.one_of(
     st.tuples(st.just('ann'), st.integers(0, len(PREFIXES) - 1), st.integers(0, 4), side).map(lambda t: ['ann', [t[1], t[1]], t[2], t[3]]),
     st.tuples(st.just('mixed'), idxs, st.integers(0, 4), idxs, side).map(
         lambda t: ['mixed', t[1], t[2], [i for i in t[3] if i not in t[1]] or [(t[1][0] + 1) % len(PREFIXES)], t[4]]),
-    st.tuples(st.just('fs-ann'), st.integers(0, 2), side).map(list),
-    st.tuples(st.just('fs-wd'), st.integers(0, 2), side).map(list),
+    st.tuples(st.just('fs-ann'), st.integers(0, 3), side).map(list),
+    st.tuples(st.just('fs-wd'), st.integers(0, 3), side).map(list),
     st.tuples(st.just('vpn-ann'), st.integers(0, 2), st.sampled_from([16, 17]), side).map(list),
     st.tuples(st.just('vpn-wd'), st.integers(0, 2), side).map(list),
     st.tuples(st.just('vpn-ann2'), st.integers(0, 2), st.sampled_from([16, 17]), st.integers(0, 2), st.sampled_from([16, 17]), side).map(
         lambda t: ['vpn-ann2', t[1], t[2], (t[3] if t[3] != t[1] else (t[1] + 1) % 3), t[4], t[5]]),
-    st.tuples(st.just('fs-ann2'), st.integers(0, 2), st.integers(0, 2), side).map(
-        lambda t: ['fs-ann2', t[1], (t[2] if t[2] != t[1] else (t[1] + 1) % 3), t[3]]),
+    st.tuples(st.just('fs-ann2'), st.integers(0, 3), st.integers(0, 3), side).map(
+        lambda t: ['fs-ann2', t[1], (t[2] if t[2] != t[1] else (t[1] + 1) % 4), t[3]]),
     st.tuples(st.just('xfam'), idxs, st.sampled_from(['fs-ann', 'fs-wd', 'vpn-ann', 'vpn-wd']), st.integers(0, 2),
               st.sampled_from([16, 17])).map(list),
     st.tuples(st.just('mp-both'), st.sampled_from(['fs', 'vpn']), st.integers(0, 2), st.integers(0, 2), st.sampled_from([16, 17]), side).map(
@@ -483,7 +486,7 @@ def run_shard(spec, seed, col, tier):
                  ['drop'], ['drop', 'notif'], ['vpn-ann2', 0, 16, 1, 17, 'peer'], ['vpn-ann', 0, 16, 'peer'], ['vpn-ann', 0, 17, 'peer'], ['vpn-wd', 0, 'peer'],
                  ['fs-ann2', 0, 1, 'peer'], ['fs-wd', 0, 'peer'], ['xfam', [1], 'fs-wd', 0, 16], ['xfam', [2], 'vpn-ann', 0, 17],
                  ['vpn-ann', 1, 16, 'rest'], ['mp-both', 'vpn', 0, 1, 16, 'rest'], ['fs-ann', 1, 'rest'], ['mp-both', 'fs', 0, 1, 16, 'rest'],
-                 ['mp-both', 'vpn', 0, 1, 16, 'peer']]
+                 ['mp-both', 'vpn', 0, 1, 16, 'peer'], ['fs-ann', 3, 'rest'], ['fs-wd', 3, 'rest']]
         seqs = list(itertools.product(range(len(alpha)), repeat=spec['len']))[spec['part']::spec['parts']]
         for s in seqs:
             ops = [alpha[i] for i in s]
